@@ -184,6 +184,30 @@ def diff_keys(a, b, prefix=''):
         yield prefix.rstrip('/')
 
 
+def diff_projection(a, b):
+    """paths at which two projections of a reported solution differ (empty: identical, NaN equal to NaN)."""
+    out = []
+    for k in set(a) | set(b):
+        if k not in a or k not in b:
+            out.append(k)
+        elif isinstance(a[k], dict):
+            if not isinstance(b[k], dict):
+                out.append(k)
+            else:
+                out.extend(k + '/' + x for x in diff_projection(a[k], b[k]))
+        elif isinstance(a[k], (list, float)) and not isinstance(a[k], str):
+            try:
+                x, y = np.asarray(a[k], dtype=float), np.asarray(b[k], dtype=float)
+                if x.shape != y.shape or not np.array_equal(x, y, equal_nan=True):
+                    out.append(k)
+            except (TypeError, ValueError):
+                if a[k] != b[k]:
+                    out.append(k)
+        elif a[k] != b[k]:
+            out.append(k)
+    return out
+
+
 def replay(session_factory, walk):
     """walk = dict(init=[obs, sel, der, np], steps=[[op, a, ...]], fits=[dict(samples=, weights=, modes=)]).
     -> one projection per fit step (the replay stops at the first fit the implementation raised in: the ranks of a
